@@ -114,7 +114,8 @@ def cases(ctx):
         else:
             pairs.append((p, "limit_fanin", "G3lf"))
     for nout in (8, 9, 16, 17):
-        for which in ({0, nout - 1} if ctx.quick else set(range(nout))):
+        # which comparator a grouping bug would drop depends on set iteration order: every position is tried for 8k+1
+        for which in ({0, nout - 1} if ctx.quick and nout % 8 != 1 else set(range(nout))):
             pairs.append((many_outputs(nout, None), many_outputs(nout, which), "MANY"))
     for k, (p0, p1, src) in enumerate(pairs):
         r = ctx.rng("C04s", k)
